@@ -136,6 +136,10 @@ def explore_block(acc, cfg, depth, coarse=False):
                     if cfg[0].startswith('sparse') and c == 2:
                         yield ('sd', a, (4000 + a, 4001 + a))      # sparse blocks also take {address: value}
         yield ('r',)
+        if cfg[0] == 'seq':
+            # the public re-initialiser: `count` cells holding `value`, from address 0 (what default() documents)
+            yield ('d', 1, 7001)
+            yield ('d', n + 1, 7002)
         yield ('i',)
 
     def step(s, ev):
@@ -166,6 +170,10 @@ def explore_block(acc, cfg, depth, coarse=False):
                 for i, v in enumerate(ev[2]):
                     model[ev[1] + i] = v
                 obs = ('s',)
+            elif ev[0] == 'd':
+                b.default(ev[1], ev[2])
+                model = dict((i, ev[2]) for i in range(ev[1]))
+                obs = ('d',)
             elif ev[0] == 'r':
                 b.reset()
                 for k in model:
@@ -183,7 +191,7 @@ def explore_block(acc, cfg, depth, coarse=False):
     def on_edge(s, ev, nxt, obs, path):
         model = dict(s[1])
         w = dict(block=cfgname, history=[list(e) for e in path(s)] + [list(ev)])
-        op = {'v': 'validate', 'g': 'getValues', 's': 'setValues', 's1': 'setValues-scalar', 'sd': 'setValues-dict', 'r': 'reset', 'i': 'iterate'}[ev[0]]
+        op = {'v': 'validate', 'g': 'getValues', 's': 'setValues', 's1': 'setValues-scalar', 'sd': 'setValues-dict', 'r': 'reset', 'i': 'iterate', 'd': 'default'}[ev[0]]
 
         def bad(what, msg, bc='n/a'):
             acc.violation('C18/%s/%s/%s/%s' % (cname, op, what, bc), w, msg, cfgname)
@@ -204,7 +212,7 @@ def explore_block(acc, cfg, depth, coarse=False):
         elif ev[0] == 'i':
             if obs[1] != sorted(model.items()):
                 bad('wrong-items', 'list(block) = %r, expected %r' % (obs[1][:6], sorted(model.items())[:6]))
-        if ev[0] in ('s', 's1', 'sd', 'r'):
+        if ev[0] in ('s', 's1', 'sd', 'r', 'd'):
             # the block must now hold exactly the model: same extent, same contents
             b = reps[nxt]
             m2 = dict(nxt[1])
